@@ -232,7 +232,7 @@ def gen_schema(rng):
     else:                  # any subset in any order
         k = int(rng.integers(1, len(names) + 1))
         cols = [str(c) for c in rng.permutation(names)[:k]]
-    f4_table = rng.random() < 0.15
+    f4_table = rng.random() < 0.3
     header = []
     for name in cols:
         units = DIM_UNITS[col_dim(name)]
@@ -272,8 +272,10 @@ def mutate_schema(rng, schema):
     cols = list(schema["cols"])
     used = {c[0] for c in cols}
     pt, no = schema["pt"], schema["no"]
-    for variant in rng.permutation(VARIANTS):
-        variant = str(variant)
+    order = [str(v) for v in rng.permutation(VARIANTS)]
+    if any(c_[2] == "float32" for c_ in cols) and rng.random() < 0.5:
+        order = ["dtype"] + order          # files with narrow columns: a widening append is the interesting mismatch
+    for variant in order:
         new = dict(schema, cols=list(cols))
         if variant == "extra":
             free = [n for n in valid_names(pt, no) if n not in used]
@@ -316,6 +318,9 @@ def mutate_schema(rng, schema):
             return variant, "same-dimension", new
         if variant == "dtype":
             i = int(rng.integers(0, len(cols)))
+            narrow = [k_ for k_, c_ in enumerate(cols) if c_[2] == "float32"]
+            if narrow and rng.random() < 0.6:       # a wider column appended onto a float32 column of the file
+                i = int(rng.choice(narrow))
             new["cols"][i] = (cols[i][0], cols[i][1], "float32" if cols[i][2] == "float64" else "float64")
             return variant, cols[i][2] + "->", new
         if variant == "tref":
@@ -1275,6 +1280,8 @@ def post(ctx):
     ctx.require("refused: incompatible append", c["refused:incompatible"], 25 * t)
     for v in VARIANTS:
         ctx.require(f"append differing in {v}", c[f"append-variant:{v}"], 3 * t)
+    ctx.require("append of a float64 column onto a float32 column of the file", c["append-variant:dtype:float32->"], 2 * t)
+    ctx.require("append of a float32 column onto a float64 column of the file", c["append-variant:dtype:float64->"], 2 * t)
     ctx.require("append with an extra last column", c["append-variant:extra:end"], 2 * t)
     ctx.require("append with the last column missing", c["append-variant:missing:last"], 2 * t)
     ctx.require("append without epoch onto a file with epoch", c["append-variant:tref:time->none"], 1 * t)
